@@ -5,7 +5,7 @@ from scapy.compat import raw
 from scapy.layers.bluetooth4LE import BTLE, BTLE_DATA, BTLE_CTRL, BTLE_ADV, BTLE_ADV_IND, \
     BTLE_ADV_NONCONN_IND, BTLE_ADV_DIRECT_IND, BTLE_ADV_SCAN_IND, BTLE_SCAN_RSP, BTLE_RF
 from whad.hub.message import AbstractPacket, pb_bind, PbFieldInt, PbFieldBytes, PbMessageWrapper, \
-    PbFieldBool, dissect_failsafe
+    PbFieldBool, dissect_failsafe, convert_failsafe
 from whad.hub.ble import Direction, AdvType, AddressType, BDAddress, BleDomain, BLEMetadata
 
 from struct import pack
@@ -81,6 +81,7 @@ class SendBleRawPdu(PbMessageWrapper):
         return packet
 
     @staticmethod
+    @convert_failsafe
     def from_packet(packet, encrypt=False):
         """Convert packet to SendBlePdu message.
         """
@@ -135,6 +136,7 @@ class SendBlePdu(PbMessageWrapper):
         return packet 
 
     @staticmethod
+    @convert_failsafe
     def from_packet(packet, encrypt=False):
         """Convert packet to SendBlePdu message.
         """
@@ -199,6 +201,7 @@ class BleAdvPduReceived(PbMessageWrapper):
             return None
 
     @staticmethod
+    @convert_failsafe
     def from_packet(packet):
         """Convert packet into BleAdvPduReceived message
         """
@@ -248,6 +251,7 @@ class BlePduReceived(PbMessageWrapper):
         return packet
 
     @staticmethod
+    @convert_failsafe
     def from_packet(packet):
         """Convert packet into BlePduReceived message
         """
@@ -307,6 +311,7 @@ class BleRawPduReceived(PbMessageWrapper):
         return packet
 
     @staticmethod
+    @convert_failsafe
     def from_packet(packet):
         """Create message from Scapy packet
         """
